@@ -689,6 +689,35 @@ func guardedByRangeCheck(cv *ssa.Convert) bool {
 		if condMentions(ifi.Cond, x, 3) {
 			return true
 		}
+		// `if err := checkRange(x); err != nil { return … }`: a helper of the package that compares its parameter with
+		// bounds and returns an error on one side of the comparison
+		if bo, ok := ifi.Cond.(*ssa.BinOp); ok && (bo.Op == token.NEQ || bo.Op == token.EQL) {
+			if k, ok := bo.Y.(*ssa.Const); ok && k.IsNil() {
+				if hc, ok := bo.X.(*ssa.Call); ok {
+					h := hc.Call.StaticCallee()
+					nilEdge := 1
+					if bo.Op == token.EQL {
+						nilEdge = 0
+					}
+					if h != nil && h.Pkg == cv.Parent().Pkg && len(h.Blocks) > 0 && edgeDominates(d, nilEdge, blk) {
+						for i, a := range hc.Call.Args {
+							if a != x || i >= len(h.Params) {
+								continue
+							}
+							for _, hb := range h.Blocks {
+								if len(hb.Instrs) == 0 {
+									continue
+								}
+								hif, ok := hb.Instrs[len(hb.Instrs)-1].(*ssa.If)
+								if ok && condMentions(hif.Cond, h.Params[i], 3) && (onlyErrorReturns(hb.Succs[0], map[*ssa.BasicBlock]bool{}) || onlyErrorReturns(hb.Succs[1], map[*ssa.BasicBlock]bool{})) {
+									return true
+								}
+							}
+						}
+					}
+				}
+			}
+		}
 	}
 	return false
 }
